@@ -126,6 +126,8 @@ def check_literal(lc, stats=None):
         q2['assign'] = q2['assign'] + [{'target': q2['assign'][0]['target'], 'idx': q2['assign'][0]['idx'], 'e': lit, 'eq': '='}]
     elif place == 'update' or q.get('except') or is_agg:
         place = 'select' if not q.get('except') else 'where'
+    if place == 'order' and q['type'] == 'select' and q.get('top') and q.get('order') is None:
+        place = 'where'     # adding an ORDER BY to a TOP-bounded query turns lazy evaluation into a full scan (an error behind the bound would surface): not a spelling change
     if place == 'select' and q['type'] == 'select':
         q2['items'] = q2['items'] + [{'k': 'expr', 'e': lit}]
     elif place == 'where':
